@@ -1,0 +1,5 @@
+//! Feature-guarded hooks for the external verification machinery.
+//!
+//! Nothing in here is compiled unless the `verif_hooks` feature is enabled.
+
+pub use crate::loader::safe_join;
